@@ -27,6 +27,10 @@ var verifC06Pairs = [][2]string{
 	{"(@a < @b) is unknown", "not ((@a < @b) is true or (@a < @b) is false)"},
 	{"@a < @b and @b < @c", "not (not (@a < @b) or not (@b < @c))"},
 	{"(@a, @b) = (@b, @c)", "(@a, @b) in ((@b, @c))"},
+	{"(@a, @b) < (@b, @c)", "@a < @b or (@a = @b and @b < @c)"},
+	{"(@a, @b) >= (@c, @a)", "@a > @c or (@a = @c and @b >= @a)"},
+	{"(@a, @b) <> (@b, @c)", "@a <> @b or @b <> @c"},
+	{"(@a, @b, @c) <= (@b, @b, @a)", "@a < @b or (@a = @b and (@b < @b or (@b = @b and @c <= @a)))"},
 	// lists that come from subqueries: s holds @b and @c, e holds no row (ANY over nothing is FALSE, ALL TRUE)
 	{"@a in (select v from s)", "@a = @b or @a = @c"},
 	{"@a not in (select v from s)", "@a <> @b and @a <> @c"},
